@@ -35,12 +35,8 @@ stabilize = Fn(
             ('C13.inv_s0', 's0 == %s' % S0),
             ('C13.inv_stab', 'forall|st: spec_fn(Seq<char>) -> Result<Seq<char>, Error>| refines(f, st) ==> #[trigger] stab(st, s0, 3) == (if it.index@ <= 3 { stab(st, c@, (3 - it.index@) as nat) } else { Err::<Seq<char>, Error>(Error::Invalid) })'),
         ],
-        head=FACTS,
-    )},
-    inserts=[
-        (r'if tmp == c', 1, 'before', 'proof { assert(f_ok(f, c@, tmp@)); }\nlet ghost oldc = c@;'),
-        (r'c = Cow::from\(tmp\.into_owned\(\)\);', 1, 'after',
-         '''proof {
+        head=FACTS + '\nlet ghost oldc = c@;',
+        tail='''proof {
     assert(it.index@ >= 0);
     chain_step(f, s0, oldc, c@, it.index@ as nat);
     assert forall|st: spec_fn(Seq<char>) -> Result<Seq<char>, Error>| refines(f, st) implies
@@ -48,8 +44,8 @@ stabilize = Fn(
         assert(st(oldc) == Ok::<Seq<char>, Error>(c@));
         assert(stab(st, s0, 3) == stab(st, oldc, (3 - it.index@) as nat));
     }
-}'''),
-    ],
+}''',
+    )},
 )
 
 
